@@ -8,7 +8,7 @@ REG = dict(
     technique="stateless deviation-bounded exhaustive exploration of thread schedules and timer firings of the real nREPL connection/worker/flusher threads under a controlled scheduler, with replay",
     text="The real nrepl.rs code (Connection, handle_message, session_worker, spawn_output_flusher, eval_code_in_namespace and the interpreter loop) runs under a controlled "
          "scheduler whose scheduling points are every channel send/recv/recv_timeout, thread spawn/join, the per-step interrupt check of the interpreter and every lock() of the "
-         "mutexes nrepl.rs uses (output buffers, interrupt-flag table); the flusher's 100 ms timer is a data choice. For seven client scenarios (one/two sessions, printing evals, failing eval, queued completions/lookup, close, clone after close, "
+         "mutexes nrepl.rs uses (output buffers, interrupt-flag table); the flusher's 100 ms timer is a data choice. For eight client scenarios (one/two sessions, printing evals, failing eval, queued completions/lookup, close, clone after close, print quota and stream chunk sizes inside multi-byte characters, "
          "malformed requests) EVERY schedule with at most 2 (quick) / 3 (thorough) deviations (preemptions or timer firings) is executed and checked: exactly one "
          "`done` per request id and nothing after it, stdout/stderr chunks complete, in order and before `done`, sessions do not see each other's definitions, no deadlock. "
          "Exhaustive within the deviation bound, the bound completed is reported.",
@@ -47,6 +47,18 @@ SCENARIOS = {
                                                               {"await": {"counter": "sent.ch0", "n": 4}}, {"send": {"op": "clone", "id": "c3"}}, {"await": {"counter": "sent.ch0", "n": 5}},
                                                               ev("u3", "garden-3", "f()"), ev("u2", "garden-2", "f()")],
                                  expect={"d2": {"out": "", "ok": True}, "x1": {"plain": True}, "u3": {"out": "", "ok": False, "isolation": True}, "u2": {"out": "", "ok": True, "value": "42"}}, fresh_clone="c3"),
+    # print options of the value message: a quota and a chunk size that fall inside multi-byte characters of the printed value
+    # ("é😀ab" prints as 10 bytes: quote, 2-byte é, 4-byte 😀, a, b, quote)
+    "S8-print-options": dict(script=clone(1) + [
+        {"send": {"op": "eval", "id": "q2", "session": "garden-1", "code": '"é😀ab"', "nrepl.middleware.print/quota": 2}},
+        {"send": {"op": "eval", "id": "q5", "session": "garden-1", "code": '"é😀ab"', "nrepl.middleware.print/quota": 5}},
+        {"send": {"op": "eval", "id": "s2", "session": "garden-1", "code": '"é😀ab"', "nrepl.middleware.print/stream?": 1, "nrepl.middleware.print/buffer-size": 2}},
+        {"send": {"op": "eval", "id": "s3q6", "session": "garden-1", "code": 'print("x") "é😀ab"', "nrepl.middleware.print/stream?": 1, "nrepl.middleware.print/buffer-size": 3,
+                  "nrepl.middleware.print/quota": 6}},
+        {"send": {"op": "load-file", "id": "l4", "session": "garden-1", "file": '"é😀ab"', "file-path": "/verif_scratch/p.gdn", "nrepl.middleware.print/quota": 4}}],
+        expect={"q2": {"out": "", "ok": True, "value_of": '"é😀ab"', "quota": 2}, "q5": {"out": "", "ok": True, "value_of": '"é😀ab"', "quota": 5},
+                "s2": {"out": "", "ok": True, "value_of": '"é😀ab"', "chunk": 2}, "s3q6": {"out": "x", "ok": True, "value_of": '"é😀ab"', "quota": 6, "chunk": 3},
+                "l4": {"out": "", "ok": True, "value_of": '"é😀ab"', "quota": 4}}),
     "S6-malformed": dict(script=clone(1) + [ev("e0", "nosuch", "1"), {"send": {"op": "frobnicate", "id": "u1"}}, {"send": {"id": "m1"}},
                                             {"send": {"op": "interrupt", "id": "i0", "session": "nosuch"}}, ev("e1", "garden-1", 'print("z") 7')],
                          expect={"e0": {"plain": True}, "u1": {"plain": True}, "m1": {"plain": True}, "i0": {"plain": True}, "e1": {"out": "z", "ok": True, "value": "7"}}),
@@ -114,6 +126,21 @@ def check_exec(ctx, name, scn, res, prefix, cost):
                     vals = [m["value"] for k, m in msgs if "value" in m]
                     if vals != [exp["value"]]:
                         viol("value message missing or wrong", {"request": rid, "values": vals})
+                if "value_of" in exp:
+                    # print options: the value messages, joined, are the printed value cut at the last character boundary within the quota;
+                    # a streamed chunk is at most `chunk` bytes unless it is a single character
+                    vals = [m["value"] for k, m in msgs if "value" in m]
+                    full = exp["value_of"].encode()
+                    want = full
+                    if "quota" in exp and len(full) > exp["quota"]:
+                        cut = exp["quota"]
+                        while cut > 0 and (full[cut] & 0xC0) == 0x80:
+                            cut -= 1
+                        want = full[:cut]
+                    if "".join(vals).encode() != want or not vals:
+                        viol("value messages do not add up to the printed value within the quota", {"request": rid, "values": vals, "expected": want.decode()})
+                    elif "chunk" in exp and any(len(v.encode()) > exp["chunk"] and len(v) > 1 for v in vals):
+                        viol("a streamed value chunk exceeds the buffer size", {"request": rid, "values": vals})
             else:
                 if len(errs) < 1:
                     viol("failed eval has no error text message", {"request": rid})
